@@ -33,7 +33,7 @@ SCHED_PLANS = {
     "C02": SAFE + FIND,
     "C03": [("base", 200, 4000), ("uwg", 60, 1000), ("manual", 80, 1500), ("tall", 30, 400), ("tail", 150, 3000), ("pop", 80, 1500), ("queue", 60, 1500), ("nq", 40, 800)],
     "C05": [("many", 3, 30), ("delay", 40, 800), ("fault", 100, 2000), ("base", 200, 4000), ("pop", 80, 1500), ("queue", 80, 1500), ("stop", 40, 1000), ("nq", 60, 1200)],
-    "C06": [("prio", 150, 3000), ("base", 250, 5000), ("pop", 100, 2000), ("queue", 80, 1500), ("stop", 40, 800)],
+    "C06": [("prio", 150, 3000), ("base", 250, 5000), ("pop", 100, 2000), ("queue", 80, 1500), ("stop", 40, 800), ("manualqueue", 40, 800), ("latequeue", 30, 600), ("heap", 60, 1200)],
     "C11": SAFE + [("fault", 80, 1500)],
     "C12": [("narrow", 80, 1500), ("base", 250, 5000), ("pop", 60, 1000), ("queue", 60, 1000), ("stop", 40, 800), ("nq", 40, 800)],
     "C13": [("base", 250, 5000), ("tail", 150, 3000), ("pop", 60, 1000), ("stop", 60, 1500), ("manual", 40, 800)],
@@ -41,7 +41,7 @@ SCHED_PLANS = {
     "C15": [("fault", 250, 5000), ("latefault", 80, 1500), ("base", 40, 500)],
     "C16": SAFE + FIND,
     "C17": [("queue", 250, 5000), ("overtall", 60, 1000), ("manualqueue", 100, 2000), ("latequeue", 80, 1500), ("pop", 40, 800)],
-    "C18": [("pop", 300, 6000), ("tall", 40, 600), ("base", 60, 1000)],
+    "C18": [("pop", 300, 6000), ("tall", 40, 600), ("base", 60, 1000), ("heap", 40, 800)],
 }
 
 
